@@ -80,6 +80,14 @@ Section Paths.
   Proof.
     intros p isegs H. rewrite walk_app. apply Reach_removelast in H. unfold Reach in H. rewrite H. reflexivity.
   Qed.
+  (* canonicalization is idempotent: what `canonicalize` returns is a fixed point of `canonicalize` *)
+  Lemma canonicalize_idempotent : forall segs d q, Reach d -> walk fs d segs = Some q ->
+      walk fs [] (map SName q) = Some q.
+  Proof. intros segs d q Hd H. exact (walk_Reach segs d q Hd H). Qed.
+
+  (* and a canonical path has no `.` / `..` left: it is the list of names itself *)
+  Lemma canonical_names_only : forall q, Forall (fun s => match s with SName _ => True | _ => False end) (map SName q).
+  Proof. induction q as [|x q IH]; cbn [map]; constructor; [exact I|exact IH]. Qed.
 End Paths.
 
 Lemma if_t : forall A (b : bool) (x y : A), b = true -> (if b then x else y) = x.
@@ -337,6 +345,37 @@ Section Proofs.
     destruct (compile a ns (doc_items (inline d) c doc)) as [b1 eb]. cbn [fst snd] in *. subst eb.
     exists b1. split; [reflexivity|exact H1].
   Qed.
+
+  (* inlining is concatenation, in document order, of what each component stands for (depth-first: the
+     expansion of a directive is itself such a concatenation one level down) *)
+  Definition expand (ri : option (curdoc -> list (string + plain) -> list item)) (c : curdoc)
+             (comp : string + plain) : list item :=
+    match comp with
+    | inr x => [IPlain x]
+    | inl name =>
+        if e_disabled en then [IErr EUnauthorized] else
+        match ri with
+        | None => [IErr ETooDeep]
+        | Some r => match resolve c name with
+                    | inl e => [IErr e]
+                    | inr (c', doc) => doc_items r c' doc
+                    end
+        end
+    end.
+
+  Lemma inline_cs_concat : forall ri c cs, inline_cs ri c cs = flat_map (expand ri c) cs.
+  Proof.
+    intros ri c. induction cs as [|[name|x] rest IH]; cbn [IncludeSpec.inline_cs flat_map expand]; rewrite ?IH; reflexivity.
+  Qed.
+
+  Lemma inline_concat : forall d c cs, inline d c cs = flat_map (expand (srec d) c) cs.
+  Proof. intros d c cs. rewrite inline_unfold. apply inline_cs_concat. Qed.
+
+  (* there is no include-once: a directive written twice stands for its content twice *)
+  Lemma include_twice : forall d c name rest,
+      inline d c (inl name :: inl name :: rest)
+      = expand (srec d) c (inl name) ++ expand (srec d) c (inl name) ++ inline d c rest.
+  Proof. intros d c name rest. rewrite !inline_concat. cbn [flat_map]. reflexivity. Qed.
 
   (* T5: with includes disabled, a directive reached without an earlier error is UnauthorizedInclude *)
   Theorem disabled_unauthorized : forall d c pre name post a b1,
